@@ -34,6 +34,7 @@ type Program struct {
 	SentinelKind map[string]string // plain (wraps nothing) | custom (facts given by axioms)
 	SpecFiles []string
 	SrcPkgs []*packages.Package
+	protoMsg *types.Interface // google.golang.org/protobuf/proto.Message (nil if not found)
 	canonStruct map[*types.Struct]string
 }
 
@@ -326,4 +327,48 @@ func (p *Program) goTypeByName(name string) types.Type {
 		return types.NewPointer(tn.Type())
 	}
 	return tn.Type()
+}
+
+// rootNonProtoType: name (as printed relative to the root package) is a type
+// of the root package - possibly behind pointers - that does not implement
+// proto.Message. Only then may a protobuf decoder's frame skip it.
+func (p *Program) rootNonProtoType(name string) bool {
+	name = strings.TrimLeft(name, "*")
+	if strings.ContainsAny(name, ".[]( ") {
+		return false
+	}
+	obj := p.Root.Pkg.Scope().Lookup(name)
+	tn, ok := obj.(*types.TypeName)
+	if !ok {
+		return false
+	}
+	if p.protoMsg == nil {
+		for _, imp := range p.Root.Pkg.Imports() {
+			if imp.Path() == "google.golang.org/protobuf/proto" {
+				if o, ok := imp.Scope().Lookup("Message").(*types.TypeName); ok {
+					p.protoMsg, _ = o.Type().Underlying().(*types.Interface)
+				}
+			}
+		}
+		if p.protoMsg == nil {
+			return false
+		}
+	}
+	t := tn.Type()
+	if _, isNamed := t.(*types.Named); isNamed {
+		if tp := t.(*types.Named).TypeParams(); tp != nil && tp.Len() > 0 {
+			return !hasMethod(t, "ProtoReflect")
+		}
+	}
+	return !types.Implements(t, p.protoMsg) && !types.Implements(types.NewPointer(t), p.protoMsg)
+}
+
+func hasMethod(t types.Type, name string) bool {
+	ms := types.NewMethodSet(types.NewPointer(t))
+	for i := 0; i < ms.Len(); i++ {
+		if ms.At(i).Obj().Name() == name {
+			return true
+		}
+	}
+	return false
 }
